@@ -3,6 +3,7 @@ package harness
 import (
 	"bytes"
 	"fmt"
+	"os"
 	"sort"
 	"strings"
 	"time"
@@ -23,6 +24,31 @@ func init() {
 	engines["conc"] = runConc
 	generators["C05"] = genC05
 	generators["C06"] = genC06
+	generators["C16"] = genC16
+}
+
+// genC16: the C05/C06 workloads plus a task calling the storage-size queries
+// and resizing the file cache; run in the -race binary.
+func genC16(seed uint64, tier string) *Plan {
+	r := simrt.NewRand(seed)
+	var p *Plan
+	if r.Chance(0.3) {
+		p = genConcBase(simrt.NewRand(seed^0x1616), false)
+	} else {
+		p = genC06(seed^0x1616, tier)
+	}
+	var q []Op
+	for i := 0; i < 2+r.Intn(5); i++ {
+		q = append(q, Op{K: "sleep", A: 1 + r.Intn(2000)})
+		if r.Chance(0.6) {
+			q = append(q, Op{K: "sizes"})
+		} else {
+			q = append(q, Op{K: "cache", A: r.Intn(4)})
+		}
+	}
+	p.Clients = append(p.Clients, q)
+	p.X["race"] = 1
+	return p
 }
 
 // HistOp is one recorded call.
@@ -259,7 +285,7 @@ func runConc(p *Plan, tape *simrt.Tape, opt RunOpt) *RunOut {
 	d.fileProbes(fs)
 	out.addFS(fs)
 	out.FinalFS = fs
-	out.addProbes(d.Probes)
+	out.addDriver(d)
 	viol := cs.viol
 	if viol == nil && d.Viol != nil {
 		viol = d.Viol
@@ -268,14 +294,31 @@ func runConc(p *Plan, tape *simrt.Tape, opt RunOpt) *RunOut {
 		viol = &Violation{Prop: p.Prop, Class: "conc/close-error", Msg: "Close returned " + closeErr.Error()}
 	}
 	finish(out, w, res, p, viol, opt)
-	if n := simrt.RaceErrors() - raceBefore; n > 0 {
-		out.Probes["race-reports"] += n
-	}
 	var all []HistOp
 	for _, h := range cs.hists {
 		all = append(all, h...)
 	}
 	overlapProbes(out, p, all)
+	if n := simrt.RaceErrors() - raceBefore; n > 0 {
+		out.Probes["race-reports"] += n
+		if p.x("race", 0) == 1 {
+			out.Viol = &Violation{Prop: p.Prop, Class: "race/data-race", Msg: fmt.Sprintf("the race detector reported %d data race(s) during this run:\n%s", n, raceReportText())}
+			out.Inconclusive = ""
+		}
+	}
+	if p.x("race", 0) == 1 {
+		// C16 reports only races; other oracles belong to C05/C06
+		if out.Viol != nil && out.Viol.Class != "race/data-race" {
+			out.Probes["other-oracle-failed"]++
+			out.Viol = nil
+		}
+		out.Probes["race-enabled"] = 0
+		if simrt.RaceEnabled {
+			out.Probes["race-enabled"] = 1
+		}
+		out.Sample = fmt.Sprintf("cfg=%+v keys=%d clients=%s strategy=%+v", p.Cfg, len(p.Keys), clientsString(p.Clients), p.Sim.Strategy)
+		return out
+	}
 	if out.Viol == nil && out.Inconclusive == "" && res.Outcome == simrt.OutDone {
 		if v, inconcl := checkLinearizable(p, all); v != nil {
 			out.Viol = v
@@ -459,3 +502,36 @@ func describeHist(hs []HistOp) string {
 }
 
 var _ = simos.NewFS
+
+// raceLogOffset tracks how much of the race detector's log file was consumed.
+var raceLogOffset int64
+
+// raceReportText returns the race reports written since the last call (the
+// parent points GORACE log_path at a per-worker file).
+func raceReportText() string {
+	base := os.Getenv("VERIF_RACE_LOG")
+	if base == "" {
+		return "(race reports are on stderr)"
+	}
+	name := fmt.Sprintf("%s.%d", base, os.Getpid())
+	b, err := os.ReadFile(name)
+	if err != nil || int64(len(b)) <= raceLogOffset {
+		return "(no report text captured)"
+	}
+	txt := string(b[raceLogOffset:])
+	raceLogOffset = int64(len(b))
+	// keep the report text (bounded)
+	var keep []string
+	for _, l := range strings.Split(txt, "\n") {
+		l = strings.TrimRight(l, " ")
+		if l == "" || strings.HasPrefix(l, "====") {
+			continue
+		}
+		keep = append(keep, l)
+		if len(keep) > 60 {
+			keep = append(keep, "...")
+			break
+		}
+	}
+	return strings.Join(keep, "\n")
+}
